@@ -33,6 +33,13 @@ theorem drop_of_getElem?_none {inp : List Nat} {i : Nat} (h : inp[i]? = none) : 
   have : inp.length ≤ i := List.getElem?_eq_none_iff.mp h
   exact List.drop_eq_nil_of_le this
 
+/-- `is_comment_start` at a position of the input is `commentHead` of the splitter. -/
+theorem commentStart_eq_head {inp : List Nat} {p ch : Nat} (h : inp[p]? = some ch) :
+    isCommentStart inp p = commentHead ch (inp.drop (p + 1)) := by
+  unfold isCommentStart commentHead
+  rw [h, List.head?_drop]
+  simp
+
 /-- The splitter's view of the rest of the name from a state of the machine. -/
 def tailOf (inp : List Nat) (s : NameSt) : List (List Nat × Nat) :=
   splitGo (s.pos + 1) s.cur (inp.drop (s.pos + 1))
@@ -53,11 +60,7 @@ theorem splitGo_emit {off : Nat} {cur l : List Nat} (hc : cur ≠ [])
   | cons ch r =>
     have := hl ch rfl
     simp only [splitGo, this, hce, Bool.false_eq_true, if_false, List.singleton_append, List.nil_append]
-    by_cases h1 : isAdditionalNameSymbol ch = true
-    · simp [h1]
-    · by_cases h2 : isWhitespace ch = true
-      · simp [h1, h2]
-      · simp [h1, h2]
+    cases isAdditionalNameSymbol ch <;> cases commentHead ch r <;> cases isWhitespace ch <;> simp
 
 theorem nameStep_cont_tail {inp : List Nat} (hamb : NoAmbiguousBlank inp) {s s' : NameSt}
     (h : nameStep inp s = .cont s') (hw : StWf inp s) :
@@ -136,12 +139,15 @@ theorem nameStep_cont_tail {inp : List Nat} (hamb : NoAmbiguousBlank inp) {s s' 
       split at h
       · rename_i ch hch
         cases h
-        have hsym : isAdditionalNameSymbol ch = true := by
+        have hn' : isAdditionalNameSymbol ch = true ∧ isCommentStart inp (s.pos + 1) = false := by
           simpa [isNextAdditionalNameSymbol, hch] using hn
+        have hsym := hn'.1
+        have hcm : commentHead ch (inp.drop (s.pos + 1 + 1)) = false := by
+          rw [← commentStart_eq_head hch]; exact hn'.2
         have hd := drop_of_getElem? hch
         refine ⟨by simp [StWf], ?_, ?_⟩
-        · simp [hd, splitGo, sym_not_part hsym, hsym, hcur]
-        · simp [hd, splitGo, sym_not_part hsym, hsym, hcur]
+        · simp [hd, splitGo, sym_not_part hsym, hsym, hcur, hcm]
+        · simp [hd, splitGo, sym_not_part hsym, hsym, hcur, hcm]
       · cases h
     · cases h
       exact ⟨by simp [StWf, hcur], rfl, rfl⟩
@@ -191,9 +197,12 @@ theorem nameStep_brk_tail {inp : List Nat} {s s' : NameSt}
   | none => simp [drop_of_getElem?_none hch, splitGo]
   | some ch =>
     have e1 : isNamePartChar ch = false := by simpa [isNextNamePartChar, hch] using h1
-    have e2 : isAdditionalNameSymbol ch = false := by simpa [isNextAdditionalNameSymbol, hch] using h2
+    have e2 : (isAdditionalNameSymbol ch && !commentHead ch (inp.drop (s.pos + 1 + 1))) = false := by
+      rw [← commentStart_eq_head hch]
+      simpa [isNextAdditionalNameSymbol, hch] using h2
     have e3 : isWhitespace ch = false := by simpa [isNextWhitespace, hch] using h3
-    simp [drop_of_getElem? hch, splitGo, e1, e2, e3]
+    simp only [drop_of_getElem? hch, splitGo, e1, e2, e3]
+    simp
 
 theorem nameLoop_split {inp : List Nat} (hamb : NoAmbiguousBlank inp) :
     ∀ (fuel : Nat) (s st : NameSt), nameLoop inp fuel s = .ok st → StWf inp s →
